@@ -58,6 +58,43 @@ def jobs_for(tier, only, kind):
                                 loop_policy=codec_loop_policy(name, cnt + 2),
                                 meta={'datatype': name, 'address_mode': mn, 'path_length': pl, 'elements': cnt,
                                       'message_object_bytes': M, 'layout': 'exact extent'}))
+    # value sizes around the type boundaries of byte counters (255/256, 511/512, 1023/1024) and near the ACF
+    # maximum, for one datatype of every element width and both variable-length layouts (exact-extent objects)
+    big = [(0x0B, [255, 256, 300, 511, 512, 513, 600]),                # string (bytes)
+           (0x82, [127, 128, 255, 256, 300]),                            # uint16[]  (up to 600 bytes)
+           (0x84, [63, 64, 127, 128, 150]),                              # uint32[]
+           (0x8A, [31, 32, 63, 64, 75]),                                 # double[]
+           (0x80, [255, 256, 511, 513])]                                 # uint8[]
+    for code, counts in big:
+        name, size, k = W.VSS_TYPES[code]
+        if only and name not in only.split(',') and 'all' not in only and 'big' not in only:
+            continue
+        if tier == 'thorough':
+            sel = [(c, m) for c in counts for m in (W.VSS_ADDR_STATIC, W.VSS_ADDR_INTEROP)]
+        elif kind == 'c07':
+            sel = [(c, W.VSS_ADDR_STATIC) for c in sorted(set(counts[1::2] + counts[-1:]))] + [(counts[-1], W.VSS_ADDR_INTEROP)]
+        else:
+            # decoding harnesses encode + decode and need 5-12 GB each: quick keeps the two that cross 511/512 bytes
+            sel = {0x0B: [(513, W.VSS_ADDR_STATIC)], 0x82: [(256, W.VSS_ADDR_STATIC)]}.get(code, [])
+        for cnt, mode in sel:
+            pl = 0 if mode == W.VSS_ADDR_STATIC else 5
+            src, M = gen_e(code, mode, pl, cnt)
+            jobs.append(Job('%s.%s.%s.E.p%d.n%d' % (kind, name, 'interop' if mode == 0 else 'static', pl, cnt), src, SRC,
+                            unwind=max(70, M + 8), unwindset=WALKER, timeout=1500, object_bits=12, backend='kissat',
+                            mem_gb=(12 if kind == 'c07' else 16), loop_policy=codec_loop_policy(name, cnt + 2),
+                            meta={'datatype': name, 'path_length': pl, 'elements': cnt, 'value_bytes': cnt * size,
+                                  'message_object_bytes': M, 'layout': 'exact extent'}))
+    # interop path lengths around the byte boundaries of the 16-bit length prefix (carry into the high byte)
+    if (not only or 'pathlen' in only or 'all' in only) and (kind == 'c07' or tier == 'thorough'):
+        for code in ((0x0B,) if tier == 'quick' else (0x04, 0x0B)):
+            name, size, k = W.VSS_TYPES[code]
+            pls = [254, 255, 256, 510, 511, 512] if tier == 'quick' else [253, 254, 255, 256, 257, 509, 510, 511, 512, 513, 1022, 1023, 1024, 1534, 1535]
+            for pl in pls:
+                src, M = gen_e(code, W.VSS_ADDR_INTEROP, pl, 1 if k == 'scalar' else 3)
+                jobs.append(Job('%s.%s.interop.E.p%d.pathlen' % (kind, name, pl), src, SRC, unwind=max(70, M + 8),
+                                unwindset=WALKER, timeout=900, object_bits=12, backend='kissat', mem_gb=(12 if kind == 'c07' else 24),
+                                loop_policy=codec_loop_policy(name, 5),
+                                meta={'datatype': name, 'path_length': pl, 'message_object_bytes': M, 'layout': 'exact extent'}))
     return jobs, (P, D, EP, EE)
 
 
@@ -74,6 +111,20 @@ def run(tier, only=None):
                             unwind=70, unwindset=WALKER, timeout=1200, backend='cadical', object_bits=12,
                             loop_policy=codec_loop_policy(W.VSS_TYPES[code][0], 8 // W.VSS_TYPES[code][1] + 2),
                             meta={'address_mode': 'symbolic 2..3 (reserved)', 'datatype': W.VSS_TYPES[code][0]}))
+    if not only or 'sequence' in only or 'all' in only:
+        seqs = [(0x00, 0, 3, 1, 0x04, 1, 0, 1), (0x04, 1, 0, 1, 0x02, 0, 5, 1), (0x0B, 0, 6, 4, 0x06, 1, 0, 1),
+                (0x82, 0, 2, 3, 0x82, 0, 7, 2), (0x06, 1, 0, 1, 0x0B, 0, 1, 2), (0x8A, 0, 4, 2, 0x09, 0, 9, 1)]
+        if tier == 'thorough':
+            seqs += [(a, ma, pa, 2, b, mb, pb, 1) for a in (0x02, 0x0B, 0x84) for b in (0x00, 0x0A, 0x88)
+                     for (ma, pa) in ((0, 3), (1, 0)) for (mb, pb) in ((0, 6), (1, 0))]
+        for sq in seqs:
+            src, M = V.c07_sequence(*sq)
+            n1, n2 = W.VSS_TYPES[sq[0]][0], W.VSS_TYPES[sq[4]][0]
+            jobs.append(Job('c07.sequence.%s.%s.p%d-then-%s.%s.p%d' % (n1, 'interop' if sq[1] == 0 else 'static', sq[2],
+                                                                   n2, 'interop' if sq[5] == 0 else 'static', sq[6]),
+                            src, SRC, unwind=max(70, M + 8), unwindset=WALKER, timeout=900, object_bits=12, backend='kissat',
+                            loop_policy=None, meta={'sequence': 'two messages encoded one after the other into the same buffer',
+                                                    'first': n1, 'second': n2}))
     chk.run(jobs)
     chk.assumptions = STD_ASSUME + [
         'bounds: (F) path length 0..%d, value 0..%d bytes in whole elements; (E) every (path length 0..%d, element '
